@@ -135,6 +135,19 @@ func c20Scenarios(tier string) []*Scenario {
 			out = append(out, sc)
 		}
 	}
+	// released by an explicit cancel although the call also has a (far) deadline
+	for _, kind := range []string{"ss", "bd"} {
+		rpc := RPC{Kind: kind, Client: []string{"S0", "C", "R"}, Handler: []string{"r", "s0", "s1", "s2", "s3", "ret:ok"}}
+		sc := sc1("C20", "s2c-cancel|"+rpcName(rpc)+"|fardl", "inproc", "cancel", rpc)
+		sc.Opts = "fardl"
+		out = append(out, sc)
+	}
+	for _, kind := range []string{"cs", "bd"} {
+		rpc := RPC{Kind: kind, Client: []string{"S0", "S1", "S2"}, Handler: []string{"r", "w", "ret:ctx"}}
+		sc := sc1("C20", "c2s-cancel|"+rpcName(rpc)+"|fardl", "inproc", "cancel", rpc)
+		sc.Opts = "fardl"
+		out = append(out, sc)
+	}
 	// a stream opened from inside a handler with that handler's context (a relay): the same one slot per
 	// direction, whoever the caller is
 	for _, inner := range []RPC{
